@@ -129,18 +129,18 @@ def intDigits (i : Int) : Nat := (toString i).length
 /-- byte length of the JSON of one value; exact for integers, booleans, null, timestamps and ASCII
     strings without escapes (the kinds used with a byte-sized WAL limit), a positive dummy otherwise. -/
 def valueJsonLen : Value → Nat
-  | .i32 n => 26 + intDigits n        -- {"type":"Int32","value":N}
-  | .i64 n => 26 + intDigits n
-  | .ts n => 30 + intDigits n         -- {"type":"Timestamp","value":N}
-  | .bool b => 25 + (if b then 4 else 5)
-  | .null => 30                       -- {"type":"Null","value":null}
-  | .str s => 29 + s.length           -- {"type":"String","value":"…"}
+  | .i32 n => 25 + intDigits n        -- {"type":"Int32","value":N}
+  | .i64 n => 25 + intDigits n
+  | .ts n => 29 + intDigits n         -- {"type":"Timestamp","value":N}
+  | .bool b => 24 + (if b then 4 else 5)
+  | .null => 28                       -- {"type":"Null","value":null}
+  | .str s => 28 + s.length           -- {"type":"String","value":"…"}
   | _ => 40
 
 /-- `<crc8>:{"shard":"default:<rel>","update":{"data":{"values":[…]},"time":T,"diff":D}}\n` -/
 def lineBytes (p : String × Update) : Nat :=
   let vals := (p.2.data.map valueJsonLen).foldl (· + ·) 0 + (p.2.data.length - 1)
-  9 + 18 + p.1.utf8ByteSize + 31 + vals + 10 + digits p.2.time + 8 + intDigits p.2.diff + 2 + 1
+  9 + 18 + p.1.utf8ByteSize + 30 + vals + 10 + digits p.2.time + 8 + intDigits p.2.diff + 2 + 1
 
 def walBytes (wal : List (String × Update)) : Nat := (wal.map lineBytes).foldl (· + ·) 0
 
@@ -364,7 +364,7 @@ inductive Op where
   | restart | shutdown
   | obs | files | q
   | bad
-  deriving Repr
+  deriving Repr, DecidableEq
 
 /-- state transition of one operation (observations change nothing). -/
 def step (c : Codec) (e : Engine) (o : Op) : Engine :=
